@@ -348,6 +348,9 @@ func checkMain(args []string) int {
 		}
 		idle = append(idle, r.w)
 		pr := r.res
+		if *verbose && total%200 == 0 {
+			fmt.Printf("  sample path %s %v status=%s\n", pr.Harness, pr.Decisions, pr.Status)
+		}
 		if *verbose && pr.WallS > 5 {
 			fmt.Printf("  slow path %s %v: wall %.1fs solver %.1fs queries %d instrs %d\n", pr.Harness, pr.Decisions, pr.WallS, pr.SolverS, pr.Queries, pr.Instrs)
 		}
